@@ -61,6 +61,8 @@ def fifoOk (complete : Bool) (handled : List Nat) (senders : List (List Nat)) : 
 
 inductive CallSeen where
   | reply | noReply | full | closed | pending
+  /-- accepted by an actor that is alive and idle, and never answered -/
+  | hang
   deriving DecidableEq, Repr
 
 /-- one call against what the target actor handled: a reply / NoReply needs the handler to have run,
@@ -71,6 +73,7 @@ def callOk (exited : Bool) (handled : List Nat) (id : Nat) (r : CallSeen) : Bool
   | .reply | .noReply => handled.contains id
   | .full | .closed => !handled.contains id
   | .pending => !exited || !handled.contains id
+  | .hang => false
 
 def callsOk (exited : Bool) (handled : List Nat) (cs : List (Nat × CallSeen)) : Bool :=
   cs.all fun c => callOk exited handled c.1 c.2
@@ -118,6 +121,7 @@ def natList (s : String) : Option (List Nat) :=
 def parseSeen (s : String) : Option CallSeen :=
   match s with
   | "r" => some .reply | "n" => some .noReply | "f" => some .full | "c" => some .closed | "p" => some .pending
+  | "h" => some .hang
   | _ => none
 
 def parseCall (s : String) : Option (Nat × CallSeen) :=
@@ -161,7 +165,9 @@ def judgeLine (ws : List String) : String :=
   | "calls" :: x :: handled :: cs =>
     match natList handled, allSome (cs.map parseCall) with
     | some h, some cs =>
-      if x = "X" then verdict (callsOk true h cs) "call"
+      if x != "X" && x != "L" then "bad-op"
+      else if cs.any (fun c => c.2 == CallSeen.hang) then "reject call-hangs"
+      else if x = "X" then verdict (callsOk true h cs) "call"
       else if x = "L" then verdict (callsOk false h cs) "call"
       else "bad-op"
     | _, _ => "bad-op"
@@ -183,6 +189,30 @@ def judgeLine (ws : List String) : String :=
   | ["abort"] => "reject abort"          -- the process running the scenario was aborted
   | ["hang"] => "reject hang"
   | "panic" :: _ => "reject panic"
+  | ["supp", po, ex, seen] =>
+    -- the supervisor stopped at some point: a prefix of what the child told it (`supervision_notifications`)
+    let po? : Option Bool := if po = "1" then some true else if po = "0" then some false else none
+    let ex? : Option Nat := if ex = "S" then some 1 else if ex = "E" then some 2 else if ex = "N" then some 0 else none
+    match po?, ex?, natList seen with
+    | some po, some ex, some seen =>
+      verdict (isPrefix seen ((if po then [0] else []) ++ (if ex == 0 then [] else [ex]))) "supervision"
+    | _, _, _ => "bad-op"
+  | ["respawn", n, t] =>
+    -- restarts under the old name issued on `terminated` / `failed` (`exit_notice_after_name_release`)
+    match n.toNat?, t.toNat? with
+    | some n, some t => verdict (t == 0 && t ≤ n) "respawn-name-taken"
+    | _, _ => "bad-op"
+  | ["gwindow", ivs, ms] =>
+    -- every cast this actor handled overlaps one of its membership windows
+    -- (`group_send_uses_current_membership`, `group_no_delivery_to_departed_member`)
+    match (if ivs = "-" then some [] else allSome ((ivs.splitOn ",").map parseIv)), allSome ((ms.splitOn ",").map parseIv) with
+    | some ivs, some ms => verdict (ms.all fun m => ivs.any fun iv => iv.1 < m.2 && m.1 < iv.2) "routed-to-non-member"
+    | _, _ => "bad-op"
+  | ["gsink", n, k] =>
+    -- an always-available member was present: no cast handed back (`group_send_not_lost_while_available`)
+    match n.toNat?, k.toNat? with
+    | some n, some k => verdict (n == k) "cast-lost"
+    | _, _ => "bad-op"
   | ["refail", a, b, c] =>
     -- failed start observed by the spawner while the failed actor is still being torn down / immediate respawn
     -- under the same name accepted / it ran (`name_free_when_start_failure_observed`, `name_free_after_drop`)
